@@ -336,13 +336,22 @@ def C05(ctx):
             k = g.fresh_key(); iv = R.randbytes(16)
             parts = pool.starmap(_tree_chunk, [(k, h, b, iv, lo, lo + 4096) for lo in range(0, 65536, 4096)])
             allk = [x for p in parts for x in p]
+            errs = [x for x in allk if isinstance(x, str)]
+            ctx.check("accepted tree parameters yield a key for every ATC", not errs,
+                      f"tree_sk key={hx(k)} iv={hx(iv)} b={b} H={h}: {len(errs)} ATCs raise, e.g. {errs[:1]}")
             ctx.check("65536 ATCs give pairwise distinct session keys", len(set(allk)) == 65536,
                       f"collision among session keys for key={hx(k)} iv={hx(iv)} b={b} H={h}: {65536 - len(set(allk))} duplicates")
             ctx.evaluations += 65536
 
 
 def _tree_chunk(k, h, b, iv, lo, hi):
-    return [kd.derive_emv2000_tree_sk(k, a.to_bytes(2, "big"), h, b, iv) for a in range(lo, hi)]
+    out = []
+    for a in range(lo, hi):
+        try:
+            out.append(kd.derive_emv2000_tree_sk(k, a.to_bytes(2, "big"), h, b, iv))
+        except Exception as e:  # noqa: BLE001  (reported by the caller as a failed predicate)
+            out.append(f"ATC {a:04X}: {type(e).__name__}: {e}")
+    return out
 
 
 def C06(ctx):
